@@ -703,6 +703,16 @@ fn gen_string(rng: &mut Rng, nasty: bool) -> String {
     let plain = ["bmp-in", "2", "rib-in-pre", "Route Monitoring", "10.0.0.1", "", "mqtt/topic", "x{y}z", "a=b,c", "ünï-cødé", "per cent %", "#1"];
     if !nasty { return rng.pick(&plain).to_string(); }
     let alphabet = ['"', '\\', '\n', 'a', 'b', ' ', '{', '}', ',', '=', 'n', 'é', '"', '\\'];
+    // one nasty string in ten is long: plain text up to a length around 64 / 128 / 256 / 1024 with a character that
+    // needs escaping (or a multi-byte one) right at that length, so that any cap, truncation or chunking of a label
+    // value — before or after escaping — meets an escape sequence or a character at its edge
+    if rng.chance(1, 10) {
+        let at = *rng.pick(&[60usize, 63, 64, 120, 126, 127, 128, 129, 130, 250, 254, 255, 256, 1022, 1023, 1024]) + rng.below(3) as usize;
+        let mut t: String = std::iter::repeat('a').take(at).collect();
+        for _ in 0..rng.range(1, 4) { t.push(*rng.pick(&['"', '\\', '\n', 'é', '"'])); }
+        for _ in 0..rng.below(6) { t.push('z'); }
+        return t;
+    }
     let n = rng.range(1, 7);
     (0..n).map(|_| *rng.pick(&alphabet)).collect()
 }
